@@ -141,7 +141,7 @@ of the record of the pieces -/
 theorem fingerprintSplit_class (puny : Str → Str) (trie : SNode Str) (sfx : Bool) {g : UrlG}
     {po : Option Nat} {u : Str} (h : StemClass true g po (lower u)) :
     fingerprintUrlSplit (stringEnv puny id trie) sfx u =
-      fpOfParsed (stringEnv puny id trie) sfx g.proto.hasProto (g.record po) := by
+      (fpOfParsed (stringEnv puny id trie) sfx g.proto.hasProto (g.record po)).map .inr := by
   unfold fingerprintUrlSplit fpOfParsed
   have e : normalizeUrlSplit (stringEnv puny id trie).puny (stringEnv puny id trie).parse
       (stringEnv puny id trie).platform fpOpts true (lower u) =
@@ -158,16 +158,16 @@ both `suffix_aware`, every suffix trie; with `strip_suffix` the host is made of 
 theorem stems_agree_fp (sp : Str → Option (Str × Str)) (puny : Str → Str) (hpc : PunyClean puny)
     (trie : SNode Str) (sa sfx : Bool) {g : UrlG} {po : Option Nat} {u : Str}
     (h : StemClass true g po (lower u)) (hplain : sfx = true → HostPlain g.host) :
-    ∃ t s, fingerprintUrlStringSplit puny id trie sfx u = .ok t ∧
+    ∃ t s, fingerprintUrlStringSplit puny id trie sfx u = .ok (.inr t) ∧
       fingerprintUrlString puny id trie sfx u = .ok s ∧ t.scheme = [] ∧
-      fingerprintedLruStems sp (stringEnv puny id trie) sa sfx u = .ok (stemsOfSplit sp sa t) ∧
+      fingerprintedLruStems sp (stringEnv puny id trie) sa sfx u = .ok (some (stemsOfSplit sp sa t)) ∧
       (lruStemsOfUrl sp modelSplit5 sa s).map (minusScheme t) = some (stemsOfSplit sp sa t) := by
   obtain ⟨H', e0, _, _⟩ := fp_tuple hpc h.good trie sfx hplain
   cases e : fpOfParsed (stringEnv puny id trie) sfx g.proto.hasProto (g.record po) with
   | error err => rw [e] at e0; cases e0
   | ok t =>
-    have ht : fingerprintUrlSplit (stringEnv puny id trie) sfx u = .ok t :=
-      (fingerprintSplit_class puny trie sfx h).trans e
+    have ht : fingerprintUrlSplit (stringEnv puny id trie) sfx u = .ok (.inr t) := by
+      rw [fingerprintSplit_class puny trie sfx h, e]; rfl
     have hs : fingerprintUrl (stringEnv puny id trie) sfx u = .ok (fpString t) := by
       unfold fingerprintUrl; rw [ht]; rfl
     have hr := fp_reparse hpc h.good trie sfx hplain t e
@@ -222,7 +222,7 @@ theorem fingerprinted_stems_factor (sp : Str → Option (Str × Str)) (puny : St
     (hpc : PunyClean puny) (trie : SNode Str) (sa sfx : Bool) {g : UrlG} {po : Option Nat} {u : Str}
     (h : StemClass true g po (lower u)) (hplain : sfx = true → HostPlain g.host) :
     ∃ s st, fingerprintUrlString puny id trie sfx u = .ok s ∧
-      fingerprintedLruStems sp (stringEnv puny id trie) sa sfx u = .ok st ∧
+      fingerprintedLruStems sp (stringEnv puny id trie) sa sfx u = .ok (some st) ∧
       (lruStemsOfUrl sp modelSplit5 sa s).map dropSchemeStem = some st := by
   obtain ⟨t, s, _, hs, hsch, htok, hre⟩ := stems_agree_fp sp puny hpc trie sa sfx h hplain
   refine ⟨s, _, hs, htok, ?_⟩
